@@ -115,34 +115,25 @@ def dispatch_rule(ctx, repo, mod):
             reads_crop = bool(attrs & {'x', 'y'})
             uses_mask = any(isinstance(n, ast.Name) and n.id == 'mask' and isinstance(n.ctx, ast.Load) for n in ast.walk(f))
             caps[name] = (reads_crop, uses_mask)
-    # fold the table construction
+    # the table as _create_png_method_dict builds it, by folding the method on an instance (however the construction is written)
+    from sa.core.classfold import ClassFolder, Inst
+    cfp = ClassFolder(repo, 'pngwriter')
+    inst = Inst('pngwriter', 'PngWriter', cfp)
+    try:
+        cfp.call(inst, '_create_png_method_dict')
+    except NotLiteral as e:
+        raise FactError('skoolkit/pngwriter.py: _create_png_method_dict is not foldable (%s)' % e)
+    pmd = getattr(inst, 'png_method_dict', None)
     table = {}
-    aliases = {}
-    def val(node):
-        if isinstance(node, ast.Attribute) and isinstance(node.value, ast.Name) and node.value.id == 'self':
-            return node.attr
-        return None
-    default = None
-    for st in ast.walk(fn):
-        if isinstance(st, ast.Assign) and isinstance(st.targets[0], ast.Subscript) and val(st.value) and ast.unparse(st.targets[0]).startswith('fs_method_dict['):
-            default = val(st.value)
-    if default is None:
-        raise FactError('skoolkit/pngwriter.py: default encoder of png_method_dict not found')
-    for bd in (0, 1, 2, 4):
-        for fs in (0, 1):
-            for mk_ in (0, 1):
-                table[(bd, fs, mk_)] = default
-    for st in fn.body:
-        if isinstance(st, ast.Assign) and isinstance(st.targets[0], ast.Name) and isinstance(st.value, ast.Subscript):
-            src = ast.unparse(st.value)
-            mm = re.match(r'self\.png_method_dict\[(\d)\]\[(\d)\]$', src)
-            if mm:
-                aliases[st.targets[0].id] = (int(mm.group(1)), int(mm.group(2)))
-        elif isinstance(st, ast.Assign) and isinstance(st.targets[0], ast.Subscript) and isinstance(st.targets[0].value, ast.Name) and st.targets[0].value.id in aliases:
-            bd, fs = aliases[st.targets[0].value.id]
-            k = st.targets[0].slice
-            if isinstance(k, ast.Constant) and val(st.value):
-                table[(bd, fs, k.value)] = val(st.value)
+    try:
+        for bd in (0, 1, 2, 4):
+            for fs in (0, 1):
+                for mk_ in (0, 1):
+                    m_ = pmd[bd][fs][mk_]
+                    f_ = getattr(m_, 'fn', None)
+                    table[(bd, fs, mk_)] = f_.name if f_ is not None else str(m_)
+    except (KeyError, TypeError, IndexError) as e:
+        raise FactError('skoolkit/pngwriter.py: png_method_dict has no entry for every (bit depth, full size, masked): %s' % e)
     for (bd, fs, mk_), name in sorted(table.items()):
         if name not in caps:
             ctx.violation('dispatch %s' % ((bd, fs, mk_),), 'skoolkit/pngwriter.py:%d' % fn.lineno, 'unknown encoder %s' % name)
